@@ -652,6 +652,10 @@ def _unwrap_rule(rep, P, construct, rel, fn):
     missing_t, missing_u = sorted(need - tested), sorted(need - unwrapped)
     if not missing_t and not missing_u:
         rep.ok(f"{P}.R5", construct, f"if {norm(unlink_if.test)}: … = -1", "either operand may carry the ~ marker (the unlink condition depends on both isinstance tests)")
+    elif not unwrapped and not missing_t:
+        rep.inconclusive(f"{P}.R5", construct, f"if {norm(unlink_if.test)}",
+                         "both operands are tested for the ~ marker, but how the marker is unwrapped (no `.orig` access) is not recognised",
+                         f"{rel}:{unlink_if.lineno}")
     else:
         rep.violation(f"{P}.R5", construct, f"if {norm(unlink_if.test)}",
                       f"the ~ marker is unwrapped for operands {sorted(need - set(missing_u))} and tested for {sorted(need - set(missing_t))} only "
@@ -664,17 +668,22 @@ def operator_rules(repo: Repo, rep, P: str):
     rel = modfile.rel
     want = {"__lshift__": "self.parent.connect(other, self)", "__rshift__": "self.parent.connect(self, other)"}
     n = 0
+    from .. import inline
     for cname in ("Module", "ModuleList"):
         ci = repo.cls(cname, module="rv.modules.module")
         for op, call in want.items():
-            fn = ci.methods.get(op)
+            r_ = repo.lookup(ci, op)          # own or inherited (a shared mixin)
+            fn = r_[2] if r_ is not None and r_[1] == "method" else None
+            if fn is not None and r_[0] is not ci:
+                ci_owner = r_[0]
+            else:
+                ci_owner = ci
             if fn is None:
                 rep.violation(f"{P}.R5", f"{rel}:{cname}.{op}", f"def {op}", "operator removed", f"{rel}:{ci.node.lineno}")
                 continue
             n += 1
-            from .. import inline
             from ..packed import subst_locals
-            fn = inline.flatten(repo, ci, fn, sf=modfile)
+            fn = inline.flatten(repo, ci_owner, fn, sf=modfile)
             calls = [norm(subst_locals(fn, c)) for c in walk_no_nested(fn) if isinstance(c, ast.Call) and norm(c.func).endswith(".connect")]
             if calls == [call]:
                 rep.ok(f"{P}.R5", f"{rel}:{cname}.{op}", call)
